@@ -24,7 +24,7 @@ ATOM_METHODS = {
     "to_degrees", "atan2", "rem_euclid", "div_euclid", "clamp", "mul_add", "trunc", "fract", "ln", "exp", "log10", "log2", "is_nan",
 }
 COMMUTATIVE = {"max", "min", "hypot", "and", "or", "xor", "eq", "ne"}
-TRANSPARENT = {"clone", "to_owned", "into", "copied", "cloned", "borrow", "as_ref", "as_deref", "as_mut", "deref", "unwrap_or_default", "as_slice", "into_iter", "iter"}
+TRANSPARENT = {"clone", "to_owned", "into", "copied", "cloned", "borrow", "as_ref", "as_deref", "as_mut", "deref", "unwrap_or_default", "as_slice", "into_iter", "iter", "as_str", "as_mut_str", "borrow_mut", "deref_mut"}
 
 
 _MISSING = object()
@@ -241,6 +241,7 @@ class Evaluator:
         self.max_depth = max_depth
         self.keyed_watch = keyed_watch
         self.incomplete = []  # places the evaluation could not follow (what it collected may be partial)
+        self.unfollowed_local = set()  # functions of the crate that ended up as opaque terms because their body could not be summarised
         self.unk_deps = {}  # local left unknown -> the input symbols its defining expressions can depend on (None: anything)
         self.by_path = {}
         for bid, h in prog.hir.items():
@@ -1241,6 +1242,11 @@ class Evaluator:
                 return recv[1]
             if not is_form(recv) and recv[0] == "none":
                 return ("err",)
+        if name in ("map_or", "map_or_else") and len(n["args"]) == 2 and rty.startswith("std::option::Option") and recv is not None and not is_form(recv) and recv[0] in ("some", "none"):
+            if recv[0] == "none":
+                return args[0] if name == "map_or" else (self._apply(args[0] if isinstance(args[0], tuple) and args[0] and args[0][0] == "closure" else n["args"][0], [], env, st))
+            cl = args[1] if isinstance(args[1], tuple) and args[1] and args[1][0] == "closure" else n["args"][1]
+            return self._apply(cl, [recv[1]], env, st)
         if name == "zip" and len(args) == 1 and rty.startswith("std::option::Option") and recv is not None and not is_form(recv) and recv[0] in ("some", "none"):
             # Option::zip: both present, or nothing
             a0 = args[0]
@@ -1299,6 +1305,8 @@ class Evaluator:
                 _ = old_
         # opaque local call: an atom over its operands.  Successive calls of a stateful method on the same receiver
         # (an iterator's next(), pop ...) are different values: they are numbered
+        if d.startswith(self.inline_prefixes) and d not in self.opaque and re.sub(r"::<[^>]*>$", "", d) not in self.opaque and n.get("def", "") not in self.opaque:
+            self.unfollowed_local.add(name)
         if all(a is not None for a in [recv] + args):
             if name in ("next", "next_back", "pop", "pop_front", "pop_back", "recv", "read_line", "nth"):
                 seq = st.setdefault("seq", {})
@@ -1391,6 +1399,8 @@ class Evaluator:
                 return sub["ret"]
         if last in ATOM_METHODS and all(is_form(a) for a in args):
             return atom(last, args)
+        if cands and cands[0].startswith(self.inline_prefixes) and cands[0] not in self.opaque:
+            self.unfollowed_local.add(last)
         if all(a is not None for a in args) and last:
             return atom(last, args)
         return None
